@@ -163,6 +163,18 @@ impl ChunkData {
         self.decompressed_size.unwrap_or(self.data.len())
     }
 
+    /// Get the decompressed size to record in a chunk table
+    ///
+    /// A chunk whose size was not recorded (one taken from a parsed file) is
+    /// decompressed to measure it, so that the table does not claim the compressed
+    /// length. An encrypted chunk of unknown size cannot be measured without its key;
+    /// the length of the stored data remains the only estimate for it.
+    pub fn measured_decompressed_size(&self) -> usize {
+        self.decompressed_size
+            .or_else(|| self.decompress(0).ok().map(|data| data.len()))
+            .unwrap_or(self.data.len())
+    }
+
     /// Decompress the chunk data
     pub fn decompress(&self, _chunk_index: usize) -> BlteResult<Vec<u8>> {
         use super::compression::decompress_chunk;
